@@ -149,3 +149,46 @@ pub open spec fn vac_done<P: Prefix, T>(m0: PrefixMap<P, T>, mf: PrefixMap<P, T>
         && mf.content() =~= m0.content().insert(p.bits(), (p, w))
         && grow_ok(m0, mf)
 }
+
+/// [C13] what a mutable exact/longest-match lookup promises about the map once the returned value
+/// reference (which pointed at the node storing key k) is released holding w
+pub open spec fn wt_post<P: Prefix, T>(m0: PrefixMap<P, T>, mf: PrefixMap<P, T>, k: Seq<bool>, w: T) -> bool {
+    let i = node_of(m0.tab(), m0.live(), k);
+    let nf = Node { prefix: m0.tab()[i].prefix, value: Some(w), left: m0.tab()[i].left, right: m0.tab()[i].right };
+    map_upd_node(m0, mf, i, nf)
+        && mf.wf_shape() && mf.wf_free() && (m0.wf_count() ==> mf.wf_count())
+        && mf.content() =~= m0.content().insert(k, (m0.content()[k].0, w))
+        && shape_same(m0.tab(), mf.tab())
+}
+
+pub proof fn lemma_wt<P: Prefix, T>(m0: PrefixMap<P, T>, n: int)
+    requires m0.wf_shape(), m0.wf_free(), stored(m0.tab(), m0.live(), n)
+    ensures
+        node_of(m0.tab(), m0.live(), kb(m0.tab(), n)) == n,
+        m0.content().dom().contains(kb(m0.tab(), n)),
+        m0.content()[kb(m0.tab(), n)] == (m0.tab()[n].prefix, m0.tab()[n].value.unwrap()),
+        forall|mf: PrefixMap<P, T>, w: T| #[trigger] map_upd_node(m0, mf, n, Node { prefix: m0.tab()[n].prefix, value: Some(w), left: m0.tab()[n].left, right: m0.tab()[n].right })
+            ==> wt_post(m0, mf, kb(m0.tab(), n), w),
+{
+    let t0 = m0.tab(); let l0 = m0.live();
+    lemma_content_at(t0, l0, n);
+    assert forall|mf: PrefixMap<P, T>, w: T| #[trigger] map_upd_node(m0, mf, n, Node { prefix: t0[n].prefix, value: Some(w), left: t0[n].left, right: t0[n].right })
+            implies wt_post(m0, mf, kb(t0, n), w) by {
+        let nf = Node { prefix: t0[n].prefix, value: Some(w), left: t0[n].left, right: t0[n].right };
+        let t1 = mf.tab();
+        assert(mf.live() =~= l0);
+        assert forall|j: int| 0 <= j < t0.len() implies #[trigger] same_shape_at(t0, t1, j) by { }
+        lemma_same_shape_wf(t0, l0, t1);
+        // content: value overwrite at a stored node
+        assert(stored(t1, l0, n) && kb(t1, n) =~= kb(t0, n));
+        assert forall|i: int| #[trigger] stored(t0, l0, i) && !(kb(t0, i) =~= kb(t0, n)) implies
+            stored(t1, l0, i) && kb(t1, i) == kb(t0, i) && t1[i].prefix == t0[i].prefix && t1[i].value == t0[i].value by { }
+        assert forall|i: int| #[trigger] stored(t1, l0, i) && !(kb(t1, i) =~= kb(t0, n)) implies stored(t0, l0, i) && kb(t0, i) == kb(t1, i) by { }
+        assert(upd_rel(t0, l0, t1, l0, kb(t0, n), Some((t0[n].prefix, w))));
+        lemma_content_upd(t0, l0, t1, l0, kb(t0, n), Some((t0[n].prefix, w)));
+        if m0.wf_count() {
+            assert forall|i: int| 0 <= i implies ind(t0, l0, i) == ind(t1, l0, i) by { }
+            lemma_nval_ext(t0, l0, t0.len() as int, t1, l0, t1.len() as int, -1);
+        }
+    }
+}
